@@ -418,7 +418,7 @@ func main() {
 	}
 	sort.Strings(params)
 	bound := harness.Pick(c, 2, 3)
-	for _, r := range harness.ExploreBatch("collector", params, bound, harness.Pick(c, 60*time.Second, 30*time.Minute), false) {
+	for _, r := range harness.ExploreBatch("collector", params, bound, harness.Pick(c, 60*time.Second, 10*time.Minute), false) {
 		c.Sample(map[string]any{"scenario": r.Param, "threads": cscens[r.Param].threads, "snapshots": cscens[r.Param].snaps, "executions": r.Stats.Execs, "distinct_observations": len(r.Stats.Observations)})
 		c.AddExploration("collector", r.Param, r.Stats, harness.Confirm(collectorScenario(r.Param)))
 	}
